@@ -1021,7 +1021,8 @@ pub fn layout(toks: &[Tok], gap: &dyn Fn(usize) -> &'static str) -> String {
                     sep = &sep[1..];
                 }
             }
-            if sep.is_empty() && !prev.line && must_separate(&prev.text, &t.text) {
+            // a unit may be written directly after its number (`10ns`, `2.0im`)
+            if sep.is_empty() && !prev.line && !t.unit && must_separate(&prev.text, &t.text) {
                 sep = " ";
             }
             if sep.starts_with('/') && prev.text.ends_with('/') {
